@@ -187,6 +187,9 @@ func (w *world) execOp(line string) string {
 	case "tick":
 		name = "newEpoch"
 		cargs = []any{hx.Big(args[0])}
+	case "nmtick": // the tick as the Inner Ring delivers it: Netmap.newEpoch fans out to its subscribers
+		name = "newEpoch"
+		cargs = []any{hx.Big(args[0])}
 	default:
 		w.run.T.Fatalf("bad method %q", method)
 	}
@@ -196,7 +199,10 @@ func (w *world) execOp(line string) string {
 		}
 	}
 	var res chainx.Result
-	if caller == "-" {
+	if method == "nmtick" {
+		res = w.c.Invoke(signers, w.special[1], name, cargs...)
+		method = "tick" // judged like a direct tick by the monitors
+	} else if caller == "-" {
 		res = w.c.Invoke(signers, w.bal, name, cargs...)
 	} else {
 		if caller != hx.Hex(w.probe.BytesBE()) {
@@ -650,6 +656,9 @@ func (g *gen) next(epoch *int64) string {
 		}
 		if sig == "alpha" && e > *epoch {
 			*epoch = e
+		}
+		if g.rng.IntN(3) == 0 {
+			return fmt.Sprintf("op %s - nmtick %d", sig, e)
 		}
 		return fmt.Sprintf("op %s - tick %d", sig, e)
 	}
